@@ -143,3 +143,43 @@ func VerifC10_AutopilotCAS(st any) {
 		verifrt.Reached("rejected")
 	}
 }
+
+// ACL tokens: a batch set with the CAS option changes a token iff the supplied index matches (zero: the
+// token is absent). The call reports nothing either way (it returns nil; its only caller never sets the
+// option), so "reported iff applied" has no meaning here and is not asserted.
+func VerifC10_ACLTokenCAS() {
+	s := NewStateStore(nil)
+	const accessor, secret = "aaaaaaaa-1111-1111-1111-aaaaaaaaaaaa", "bbbbbbbb-2222-2222-2222-bbbbbbbbbbbb"
+	i1 := verifrt.U64("i1")
+	idx := verifrt.U64("idx")
+	verifrt.Assume(i1 >= 1 && i1 < idx && idx < 1<<62)
+	present := verifrt.Bool("present")
+	if present {
+		if err := s.ACLTokenSet(i1, &structs.ACLToken{AccessorID: accessor, SecretID: secret, Description: "old"}); err != nil {
+			panic(err)
+		}
+	}
+	cidx := verifrt.U64("cidx")
+	err := s.ACLTokenBatchSet(idx, structs.ACLTokens{{AccessorID: accessor, SecretID: secret, Description: "new",
+		RaftIndex: structs.RaftIndex{ModifyIndex: cidx}}}, ACLTokenSetOptions{CAS: true})
+	verifrt.Assert("C10.acl-token.no-error", err == nil)
+	_, tok, _ := s.ACLTokenGetByAccessor(nil, accessor, nil)
+	matched := (!present && cidx == 0) || (present && cidx != 0 && cidx == i1)
+	if matched {
+		verifrt.Assert("C10.acl-token.applied-when-matched", tok != nil && tok.Description == "new" && tok.ModifyIndex == idx)
+		verifrt.Reached("applied")
+	} else {
+		if present {
+			verifrt.Assert("C10.acl-token.unchanged-when-not-matched", tok != nil && tok.Description == "old" && tok.ModifyIndex == i1)
+		} else {
+			verifrt.Assert("C10.acl-token.unchanged-when-not-matched", tok == nil)
+		}
+		verifrt.Assert("C10.acl-token.index-unchanged-when-not-matched", vIndex(s, "acl-tokens") == func() uint64 {
+			if present {
+				return i1
+			}
+			return 0
+		}())
+		verifrt.Reached("rejected")
+	}
+}
